@@ -116,6 +116,10 @@ def gen_case(rng, idx, sdir):
                     c["id"] = c["name"] = str(uuid.UUID(int=rng.getrandbits(128), version=4))
         return s
     targets = [tsec("T%d" % i, rng.choice([0, 1, 2])) for i in range(rng.choice([1, 2, 3]))]
+    if rng.random() < 0.15:
+        # a sibling *ahead of* a target whose name differs from the target's only in letter case: another Section
+        k_ = rng.randrange(len(targets))
+        targets.insert(k_, tsec(targets[k_]["name"].lower(), 1))
     padded = rng.random() < 0.12
     if padded:
         # legal names with a leading / trailing blank, next to a sibling that carries the trimmed name
